@@ -65,51 +65,63 @@ theorem bitwise_core (f : Nat → Nat → Nat) (fb : Bool → Bool → Bool)
     simp only [ABuf.length, hzl] at this
     rw [this]
 
-/-- `&`, `|`, `^` on canonical Buffers of equal length: bit-wise over the bits, side of the left operand, right
-    operand untouched; unequal lengths raise ValueError -/
+/-- what the right operand is afterwards: untouched unless the internal re-padding is done in place (then the same
+    bits, padded like the left operand) -/
+def afterPad (ip : Bool) (a b : ABuf) : Buf :=
+  if ip = true ∧ b.side ≠ a.side then Buf.ofABuf ⟨b.bits, a.side⟩ else Buf.ofABuf b
+
+/-- `&`, `|`, `^` on canonical Buffers of equal length: bit-wise over the bits, side of the left operand; unequal
+    lengths raise ValueError -/
 theorem bitwise_spec (f : Nat → Nat → Nat) (fb : Bool → Bool → Bool)
     (hbit : ∀ x y j, (f x y).testBit j = fb (x.testBit j) (y.testBit j)) (h0 : fb false false = false)
-    (hlt : ∀ x y, x < 256 → y < 256 → f x y < 256) (a b : ABuf) :
-    Buf.bitwise f false (Buf.ofABuf a) (Buf.ofABuf b) =
-      if a.bits.length = b.bits.length then .ok (Buf.ofABuf ⟨List.zipWith fb a.bits b.bits, a.side⟩, Buf.ofABuf b)
+    (hlt : ∀ x y, x < 256 → y < 256 → f x y < 256) (ip : Bool) (a b : ABuf) :
+    Buf.bitwise f ip (Buf.ofABuf a) (Buf.ofABuf b) =
+      if a.bits.length = b.bits.length then .ok (Buf.ofABuf ⟨List.zipWith fb a.bits b.bits, a.side⟩, afterPad ip a b)
       else .error .valueError := by
   obtain ⟨abits, aside⟩ := a
   obtain ⟨bbits, bside⟩ := b
-  unfold Buf.bitwise
+  unfold Buf.bitwise afterPad
   by_cases hl : abits.length = bbits.length
   · have hl' : ¬ ((Buf.ofABuf ⟨abits, aside⟩).length ≠ (Buf.ofABuf ⟨bbits, bside⟩).length) := by simp [Buf.ofABuf, ABuf.length, hl]
     rw [if_neg hl', if_pos hl]
     have hcore := bitwise_core f fb hbit h0 hlt abits bbits aside hl
     by_cases hp : (Buf.ofABuf ⟨bbits, bside⟩).padding ≠ (Buf.ofABuf ⟨abits, aside⟩).padding
     · rw [if_pos hp]
-      simp only [bind, Except.bind, pure, Except.pure, pad_spec, Bool.false_eq_true, if_false]
+      have hs : bside ≠ aside := by simpa [Buf.ofABuf] using hp
+      simp only [bind, Except.bind, pure, Except.pure, pad_spec]
       simp only [Buf.ofABuf, ABuf.length] at hcore ⊢
       rw [hcore]
+      cases ip <;> simp [hs]
     · rw [if_neg hp]
       have hs : bside = aside := by simpa [Buf.ofABuf] using hp
       subst hs
       simp only [bind, Except.bind, pure, Except.pure]
       simp only [Buf.ofABuf, ABuf.length] at hcore ⊢
       rw [hcore]
+      simp
   · have hl' : (Buf.ofABuf ⟨abits, aside⟩).length ≠ (Buf.ofABuf ⟨bbits, bside⟩).length := by simpa [Buf.ofABuf, ABuf.length] using hl
     rw [if_pos hl', if_neg hl]
     rfl
 
 theorem band_spec (a b : ABuf) : Buf.band (Buf.ofABuf a) (Buf.ofABuf b) =
-    if a.bits.length = b.bits.length then .ok (Buf.ofABuf ⟨List.zipWith (· && ·) a.bits b.bits, a.side⟩, Buf.ofABuf b) else .error .valueError :=
-  bitwise_spec (· &&& ·) (· && ·) (fun x y j => Nat.testBit_and x y j) rfl (fun x y hx _ => Nat.lt_of_le_of_lt Nat.and_le_left hx) a b
+    if a.bits.length = b.bits.length then .ok (Buf.ofABuf ⟨List.zipWith (· && ·) a.bits b.bits, a.side⟩, afterPad Gen.andPadInplace a b) else .error .valueError :=
+  bitwise_spec (· &&& ·) (· && ·) (fun x y j => Nat.testBit_and x y j) rfl (fun x y hx _ => Nat.lt_of_le_of_lt Nat.and_le_left hx) _ a b
 
 theorem bor_spec (a b : ABuf) : Buf.bor (Buf.ofABuf a) (Buf.ofABuf b) =
-    if a.bits.length = b.bits.length then .ok (Buf.ofABuf ⟨List.zipWith (· || ·) a.bits b.bits, a.side⟩, Buf.ofABuf b) else .error .valueError :=
-  bitwise_spec (· ||| ·) (· || ·) (fun x y j => Nat.testBit_or x y j) rfl (fun x y hx hy => Nat.or_lt_two_pow (n := 8) hx hy) a b
+    if a.bits.length = b.bits.length then .ok (Buf.ofABuf ⟨List.zipWith (· || ·) a.bits b.bits, a.side⟩, afterPad Gen.orPadInplace a b) else .error .valueError :=
+  bitwise_spec (· ||| ·) (· || ·) (fun x y j => Nat.testBit_or x y j) rfl (fun x y hx hy => Nat.or_lt_two_pow (n := 8) hx hy) _ a b
 
 theorem bxor_spec (a b : ABuf) : Buf.bxor (Buf.ofABuf a) (Buf.ofABuf b) =
-    if a.bits.length = b.bits.length then .ok (Buf.ofABuf ⟨List.zipWith (fun x y => x != y) a.bits b.bits, a.side⟩, Buf.ofABuf b) else .error .valueError :=
+    if a.bits.length = b.bits.length then .ok (Buf.ofABuf ⟨List.zipWith (fun x y => x != y) a.bits b.bits, a.side⟩, afterPad Gen.xorPadInplace a b) else .error .valueError :=
   bitwise_spec (· ^^^ ·) (fun x y => x != y) (fun x y j => by rw [Nat.testBit_xor]) rfl
-    (fun x y hx hy => Nat.xor_lt_two_pow (n := 8) hx hy) a b
+    (fun x y hx hy => Nat.xor_lt_two_pow (n := 8) hx hy) _ a b
+
+/-- the result alone (whatever happens to the right operand — that is C16's `C16_pure_*`) -/
+theorem map_fst_ite {α β : Type} (c : Prop) [Decidable c] (r : α) (s : β) :
+    (if c then (.ok (r, s) : Py (α × β)) else .error .valueError).map (·.1) = if c then .ok r else .error .valueError := by
+  split <;> rfl
 
 end Schc
-
 namespace Schc
 open Bits
 
